@@ -10,7 +10,7 @@
     NaN payloads, -0 and extreme integers are ordinary values. *)
 From Coq Require Import List NArith ZArith Lia.
 From PQ Require Import Base.Bytes Base.BitPack Enc.DeltaBP Enc.DeltaBPProofs Enc.Plain Enc.PlainProofs.
-From PQ Require Import Dremel.Model Dremel.Proofs File.Pipeline File.PipelineProofs.
+From PQ Require Import Dremel.Model Dremel.Proofs File.Pipeline File.PipelineProofs File.PipelineFull.
 Import ListNotations.
 Open Scope N_scope.
 
@@ -44,12 +44,20 @@ Section C01.
   Proof. exact (column_roundtrip V venc vdec vok v_roundtrip). Qed.
 
   (** The whole pipeline: for every schema, every sequence of well-formed
-      records and every page layout of every column, reading the written file
-      returns the records in order.  [cols_ok] says that the shredded entries
-      respect the leaves' maximum levels and that values are present exactly at
-      the maximum definition level (proved for [shred] in Dremel/Levels.v, see
-      C03) and that the leaf values are accepted by the value encoding. *)
+      records whose leaf values the value encoding accepts ([leaves_ok]) and
+      every page layout of every column, reading the written file returns the
+      records in order.  The only size condition is the format's: a column
+      holds fewer than 2^61 entries. *)
   Theorem C01_roundtrip_all_layouts : forall s, wf_schema s -> forall n rows layouts,
+    Forall (wfn V n s) rows -> Forall (leaves_ok V vok) rows ->
+    Forall (fun c : column V => N.of_nat (length c) < 2 ^ 61) (shred_rows s rows) ->
+    read_file V vdec s (length rows) (S n) (write_file V venc s layouts rows) = Some rows.
+  Proof. exact (read_write_file_full V vok venc vdec v_roundtrip). Qed.
+
+  (** The same with the column conditions explicit (level bounds and value
+      placement of the shredded entries), for columns that do not come from
+      [shred_rows]. *)
+  Theorem C01_roundtrip_columns : forall s, wf_schema s -> forall n rows layouts,
     Forall (wfn V n s) rows ->
     cols_ok V vok (max_levels s 0 0) (shred_rows s rows) ->
     read_file V vdec s (length rows) (S n) (write_file V venc s layouts rows) = Some rows.
@@ -60,6 +68,7 @@ Print Assumptions C01_assemble_shred.
 Print Assumptions C01_page_roundtrip.
 Print Assumptions C01_column_roundtrip_all_layouts.
 Print Assumptions C01_roundtrip_all_layouts.
+Print Assumptions C01_roundtrip_columns.
 
 (** The value-encoding hypothesis is satisfiable: DELTA_BINARY_PACKED on int64
     and PLAIN on fixed-width patterns are instances. *)
@@ -103,9 +112,10 @@ Example C01_ex_roundtrip :
     (write_file Z (DeltaBP.enc 64) ex_schema [[1;2]; [2]; [1;1;2]; [3]; [2;2]]%nat ex_rows) = Some ex_rows.
 Proof. vm_compute. reflexivity. Qed.
 
-Example C01_ex_wf : wf_schema ex_schema /\ Forall (wfn Z 4 ex_schema) ex_rows.
+Example C01_ex_wf : wf_schema ex_schema /\ Forall (wfn Z 4 ex_schema) ex_rows /\
+                    Forall (leaves_ok Z (in_sint 64)) ex_rows.
 Proof.
-  split; [cbn; repeat split; lia|].
+  split; [cbn; repeat split; lia|]. split; [|repeat constructor; cbn; unfold in_sint; repeat split; lia].
   repeat constructor; cbn; repeat split; try lia; repeat constructor; cbn; repeat split; try lia;
     repeat constructor; cbn; auto.
 Qed.
